@@ -113,7 +113,7 @@ def gen_model_case(g):
     base["as_calls"] = g.chance(0.3)
     # the model has been used before, and the sequence starts from zero (reset=True) or from given states: the option
     # travels with the FIRST piece only (run, or a single call), the other pieces carry on
-    base["start"] = g.choice([None, None, "reset", "from_state"])
+    base["start"] = g.choice([None, None, "reset", "from_state", "both"])
     base["warm"] = g.randint(1, 3) if base["start"] else 0
     base.pop("ops")
     return base
@@ -150,14 +150,18 @@ def check_model(ctx, c):
         return {u: np.asarray(out[nd.name], dtype=float).reshape(n, -1) for u, nd in enumerate(bb.nodes)}
     start = c.get("start")
     warm = {u: flow.seq_rows(g, c.get("warm", 0), c["descs"][u]["in_dim"]) for u in ents} if start else None
-    fs_nodes = sorted(g.sample(range(len(c["descs"])), g.randint(1, len(c["descs"])))) if start == "from_state" else []
+    # "both": some nodes start from given states, every other node from zero (from_state together with reset=True)
+    fs_nodes = sorted(g.sample(range(len(c["descs"])), g.randint(1, len(c["descs"])))) if start in ("from_state", "both") else []
     fs_vals = {u: g.dyvec(c["descs"][u]["out_dim"], a=2, k=4) for u in fs_nodes}
 
     def first_kw(bb):
         if start == "reset":
             return {"reset": True}
-        if start == "from_state":
-            return {"from_state": {bb.nodes[u].name: np.array(fs_vals[u], dtype=float).reshape(1, -1) for u in fs_nodes}}
+        if start in ("from_state", "both"):
+            kw = {"from_state": {bb.nodes[u].name: np.array(fs_vals[u], dtype=float).reshape(1, -1) for u in fs_nodes}}
+            if start == "both":
+                kw["reset"] = True
+            return kw
         return {}
     try:
         if start:
